@@ -28,8 +28,8 @@ ALPHAS = [0.05, 0.05, 0.1, 0.01, 0.25]
 
 def shards(tier):
     n = 1000 if tier == "quick" else 12000
-    return [{"name": m, "mode": m, "examples": (n // 4 if m == "audit-oneaudit" else n) if m != "interleave" else 4 * n}
-            for m in ("pilot", "prefix", "comparison", "polling", "contest", "audit", "audit-oneaudit", "raire-estimator", "interleave")]
+    return [{"name": m, "mode": m, "examples": (n // 4 if m == "audit-oneaudit" else n // 2 if m == "contest-data" else n) if m != "interleave" else 4 * n}
+            for m in ("pilot", "prefix", "comparison", "polling", "contest", "contest-data", "audit", "audit-oneaudit", "raire-estimator", "interleave")]
 
 
 @st.composite
@@ -113,6 +113,15 @@ def strategy(shard):
 
     if mode in ("pilot", "prefix"):
         return pilot()
+    if mode == "contest-data":
+        # a contest-level estimate from the cards inspected so far: every assertion's own data tiled to the population
+        from strategies import audit as sa
+
+        return st.fixed_dictionaries({"mode": st.just(mode),
+                                      "scn": sa.scenario(n_contests=(1, 2), kinds=["plurality"], audit_types=("CARD_COMPARISON",), use_style=False,
+                                                         n_cards=(6, 40), favour_winner=True, with_phantoms=False, with_pools=False, p_missing=0.0,
+                                                         mvr_modes=("copy",) * 6 + ("other", "other", "phantom")),
+                                      "take": st.floats(0.2, 1.0)})
     if mode == "audit-oneaudit":
         # the first estimate of a ONEAudit (no cards inspected yet): the CVRs' own overstatement values with one- and two-vote
         # overstatements placed at the assumed rates, tiled to the population size
@@ -221,6 +230,47 @@ def evaluate(case, out):
         out.expect(len(y) == case["n_small"] + case["n_med"] + case["n_big"] and got == (case["n_small"], case["n_med"], case["n_big"]),
                    "interleave-counts", lambda: (got, (case["n_small"], case["n_med"], case["n_big"])))
         out.nontrivial = case["n_small"] > 0 and case["n_med"] > 0
+        return
+    if mode == "contest-data":
+        from strategies import audit as sa
+        from shangrla.core.Audit import Assertion
+
+        scn = case["scn"]
+        try:
+            audit, contests, cvrs, mvrs = sa.build(scn)
+            Assertion.set_all_margins_from_cvrs(audit, contests, cvrs)
+        except Exception as e:  # noqa
+            out.lib_exception("setup", e)
+            return
+        if not all(a.margin > 0 for con in contests.values() for a in con.assertions.values()):
+            out.skip("nonpositive-margin")
+            return
+        k = max(1, int(len(cvrs) * case["take"]))
+        cs, ms = cvrs[:k], mvrs[:k]
+        audit.reps = None
+        for cid, con in contests.items():
+            wants = {}
+            try:
+                for key, a in con.assertions.items():
+                    d = np.array(a.mvrs_to_data(ms, cs)[0], dtype=float)      # (C06's business)
+                    N = int(a.test.N)
+                    pop = np.tile(d, math.ceil(N / len(d)))[:N]
+                    hist = np.asarray(copy.deepcopy(a.test).test(pop)[1], dtype=float)
+                    wants[key] = first_crossing(hist, con.risk_limit, N)
+                got = con.find_sample_size(audit, mvr_sample=ms, cvr_sample=cs)
+            except Exception as e:  # noqa
+                out.lib_exception("find_sample_size", e)
+                return
+            out.expect(int(got) == max(wants.values()) and int(con.sample_size) == int(got), "contest-estimate-from-data!=max-over-assertions",
+                       lambda: {"contest": cid, "got": int(got), "want": wants})
+            per = {key: int(a.sample_size) for key, a in con.assertions.items()}
+            out.expect(per == wants, "assertion-estimate-from-data!=first-crossing-on-its-own-data", lambda: {"contest": cid, "got": per, "want": wants})
+            margins = [a.margin for a in con.assertions.values()]
+            if len(set(margins)) < len(margins):
+                out.cls("assertions-with-equal-margins")
+                if len(set(wants.values())) > 1:
+                    out.cls("equal-margins-different-estimates")
+            out.nontrivial = out.nontrivial or len(set(wants.values())) > 1
         return
     if mode == "audit-oneaudit":
         from strategies import audit as sa
